@@ -1,6 +1,8 @@
 import PPModel.Base.Sexp
 import PPModel.Mod.PR
 import PPModel.Mod.PRHeap
+import PPModel.Mod.PRHeapDeep
+import PPModel.Mod.PRHeapDeepC
 import PPModel.Mod.PRFromDict
 namespace PP.Driver.PRD
 open PP PP.Sexp PP.PR PP.PyList
@@ -172,6 +174,14 @@ def rSexp : Nat → R Sexp → Sexp
   | f+1, .pr toks names =>
     .list [.atom "pr", .list (toks.map (rSexp f)), .list (names.map (fun kr => .list [.str kr.1, rSexp f kr.2]))]
 
+def shape? : Nat → Sexp → Option PRHeap.Shape
+  | 0, _ => none
+  | _ + 1, .str a => some (.s a)
+  | f + 1, .list (.atom "g" :: .str name :: kids) => do
+      let ks ← kids.mapM (shape? f)
+      pure (.g name ks)
+  | _, _ => none
+
 def prHandle : List Sexp → Option Sexp
   | [.atom "fromdict", j] =>
     match j? 64 j with
@@ -179,6 +189,14 @@ def prHandle : List Sexp → Option Sexp
       some (.list [rSexp 64 (FromDict.fromDict kvs), jSexp 64 (.dict (FromDict.asDict (FromDict.fromDict kvs)))])
     | _ => none
   | [.atom "prshare", .str kind, .str probe] => (PRHeap.sharing kind probe).map ofBool
+  | [.atom "prtreeshare", .str kind, sh] => do
+      let t ← shape? 16 sh
+      let r ← PRHeap.treeShare kind t
+      pure (.list [.list (r.1.map ofBool), .list (r.2.map (fun n => .atom (toString n)))])
+  | [.atom "prcontshare"] => some (.list (PRHeap.contShare.map ofBool))
+  | [.atom "prdeepshare", .str kind, d] => do
+      let n ← d.int?
+      if n < 1 ∨ n > 12 then none else (PRHeap.deepShare kind n.toNat).map (fun bs => .list (bs.map ofBool))
   | [.atom "prhist", st, .list ops] => do
       let ops ← ops.mapM op?
       match ← start? 64 st with
